@@ -3,6 +3,8 @@ package main
 import (
 	"bytes"
 	"fmt"
+	"os"
+	"path/filepath"
 	"strings"
 
 	"github.com/semihalev/twig"
@@ -69,6 +71,75 @@ func c04LongText(res *Result) {
 					var pw c04PlainWriter
 					err = eng.RenderTo(&pw, "t", ctx)
 					check("RenderTo(writer with Write only)", pw.buf.String(), err)
+				}
+			}
+		}
+	}
+}
+
+// c04OtherRoutes: the same source reaches the engine through a file (FileSystemLoader), through an ArrayLoader and
+// through its compiled form (several versions under one name and one recorded time, each loaded into a fresh
+// engine): every literal byte -- CR, CR LF, NUL, a byte order mark, invalid UTF-8 -- comes out as through RegisterString.
+func c04OtherRoutes(cases string, res *Result) {
+	root := filepath.Join(filepath.Dir(cases), "c04files")
+	os.RemoveAll(root)
+	os.MkdirAll(root, 0o755)
+	defer os.RemoveAll(root)
+	srcs := []string{
+		"line1\nline2 {{ a }}\n", "line1\r\nline2 {{ a }}\r\n{# c #}\r\nend", "mac\rline {{ a }}\rend\r", "mixed\r\n\n\r{% if a %}y\r\n{% endif %}\r", "\r", "\r\n", "x\r{{ a }}\r\ny",
+		"nul\x00byte {{ a }}", "\xef\xbb\xbfbom {{ a }}", "bad\xff\xfe {{ a }} \xc3", "tab\there  two  spaces {{ a }}", "{% verbatim %}raw\r\n{{ a }}\r{% endverbatim %}\r\n",
+		"{# first #}v1 lit\r\n{{ a }}", "{# secnd #}v2 LIT\n\r{{ a }}", "{# third #}v3 \x00it\r\r{{ a }}",
+	}
+	ctx := func() map[string]interface{} { return map[string]interface{}{"a": "A"} }
+	for i, src := range srcs {
+		c := Case{"stream": "other-routes", "src": hx(src)}
+		res.Hist["stream:other-routes"]++
+		res.count("other-routes/"+src, true)
+		ref := twig.New()
+		if ref.RegisterString("t.twig", src) != nil {
+			continue
+		}
+		want, werr := ref.Render("t.twig", ctx())
+		if werr != nil {
+			continue
+		}
+		check := func(route, got string, err error) {
+			res.Evaluations++
+			if err != nil {
+				res.add(Finding{Kind: "oracle", Where: "other-routes/" + route, Case: c, Expected: hx(want), Observed: "error: " + err.Error()})
+			} else if got != want {
+				res.add(Finding{Kind: "oracle", Where: "other-routes/" + route, Case: c, Expected: hx(want), Observed: hx(got),
+					Detail: "the same source gives other bytes through " + route + " than through RegisterString"})
+			}
+		}
+		name := fmt.Sprintf("f%d.twig", i)
+		os.WriteFile(filepath.Join(root, name), []byte(src), 0o644)
+		fe := twig.New()
+		fe.RegisterLoader(twig.NewFileSystemLoader([]string{root}))
+		got, err := fe.Render(name, ctx())
+		check("FileSystemLoader", got, err)
+		ae := twig.New()
+		ae.RegisterLoader(twig.NewArrayLoader(map[string]string{name: src}))
+		got, err = ae.Render(name, ctx())
+		check("ArrayLoader", got, err)
+		// the compiled form: one name and one recorded time for every version
+		if ct, cerr := ref.CompileTemplate("t.twig"); cerr == nil {
+			ct.LastModified = 1700000000
+			ct.CompileTime = 1700000001
+			if data, serr := twig.SerializeCompiledTemplate(ct); serr == nil {
+				ce := twig.New()
+				err = ce.LoadFromCompiledData(data)
+				if err == nil {
+					got, err = ce.Render("t.twig", ctx())
+				}
+				check("LoadFromCompiledData", got, err)
+				ce2 := twig.New()
+				if back, derr := twig.DeserializeCompiledTemplate(data); derr == nil {
+					err = ce2.RegisterCompiledTemplate(back)
+					if err == nil {
+						got, err = ce2.Render("t.twig", ctx())
+					}
+					check("RegisterCompiledTemplate", got, err)
 				}
 			}
 		}
